@@ -26,7 +26,8 @@ ASSUMPTIONS = [
     'sync watchers are recognised structurally (bound method _sync_refs whose owner namespace belongs to the target)',
 ]
 REQUIRED = {'mirror_checks': 8000, 'source_updates': 2000, 'overrides': 300, 'relinks': 300, 'nested_links': 200, 'leak_checks': 3000, 'triggers': 100,
-            'same_reference_reassigned': 20, 'overrides_from_trigger_callback': 50}
+            'same_reference_reassigned': 20, 'overrides_from_trigger_callback': 50, 'equal_comparing_source_cases': 40,
+            'targets_sharing_parameter_objects': 40, 'assignments_from_on_init_method': 100}
 
 _st = {}
 _n = [0]
@@ -47,6 +48,14 @@ def setup(P):
         z = param.Parameter(default=None, allow_refs=True)
         l = param.List(default=[], allow_refs=True, nested_refs=True)
         d = param.Dict(default={}, allow_refs=True, nested_refs=True)
+        p = param.Number(default=0.0)
+
+        @param.depends('p', watch=True, on_init=True)
+        def _finish_init(self):
+            # runs at the end of construction: a class may complete its own set-up there (assign values, make links)
+            hook, _st['init_hook'] = _st.get('init_hook'), None
+            if hook is not None:
+                hook(self)
 
     class EmptyTgt(Tgt):
         """A container-like Parameterized object that is falsy (len() == 0): still a perfectly valid link target."""
@@ -54,7 +63,22 @@ def setup(P):
         def __len__(self):
             return 0
 
-    _st['Src'], _st['Tgt'], _st['EmptyTgt'] = Src, Tgt, EmptyTgt
+    class SharedTgt(Tgt):
+        """the Parameter objects of y and l are shared by all instances (per_instance=False); values and links are not"""
+        y = param.Number(default=0.0, allow_refs=True, per_instance=False)
+        l = param.List(default=[], allow_refs=True, nested_refs=True, per_instance=False)
+
+    _st['SharedTgt'] = SharedTgt
+
+    class EqSrc(Src):
+        """value-style comparison: all sources compare equal and hash alike; they are still distinct objects"""
+        def __eq__(self, other):
+            return isinstance(other, Src)
+
+        def __hash__(self):
+            return 1
+
+    _st['Src'], _st['Tgt'], _st['EmptyTgt'], _st['EqSrc'] = Src, Tgt, EmptyTgt, EqSrc
 
 
 def case_reset(idx):
@@ -161,7 +185,13 @@ def _flat(v):
 def run_case(idx, rng, P, rep):
     param = _st['param']
     Src, Tgt = _st['Src'], _st['Tgt']
+    if rng.random() < 0.15:
+        Src = _st['EqSrc']
+        rep.count('equal_comparing_source_cases')
     srcs = [Src(v=fresh(), w=fresh()) for _ in range(3)]
+    shared_pobj = rng.random() < 0.15
+    if shared_pobj:
+        Tgt = _st['SharedTgt']
     ntg = rng.randint(1, 2)
     links = [dict() for _ in range(ntg)]        # per target: pname -> (ev, kind, deps)
     refobjs = [dict() for _ in range(ntg)]      # per target: pname -> the reference object handed over (list links)
@@ -182,7 +212,40 @@ def run_case(idx, rng, P, rep):
                     trace.append(('ctor-link', ti, tp, kind))
                     if tp in ('l', 'd'):
                         rep.count('nested_links')
+        init_ops = []
+        if rng.random() < 0.2:
+            # assignments made by the object's own on_init method: further links, new links for / plain overrides of
+            # parameters linked by the constructor
+            for _ in range(rng.randint(1, 2)):
+                tp = rng.choice(['x', 'y', 'z', 'l', 'd'])
+                if rng.random() < 0.5:
+                    ref, ev, kind, deps = make_ref(rng, srcs, tp)
+                    if valid_for(tp, safe(ev)):
+                        init_ops.append((tp, 'link', ref, ev, kind, deps))
+                else:
+                    v = {'x': fresh(), 'y': fresh(), 'z': ('plain', fresh()), 'l': [fresh()], 'd': {'p': fresh()}}[tp]
+                    init_ops.append((tp, 'plain', v))
+            if init_ops:
+                _st['init_hook'] = lambda self, init_ops=init_ops: [setattr(self, op[0], op[2]) for op in init_ops]
+                rep.count('assignments_from_on_init_method', len(init_ops))
         targets.append((_st['EmptyTgt'] if rng.random() < 0.25 else Tgt)(**kw))
+        _st['init_hook'] = None
+        for op in init_ops:
+            tp = op[0]
+            if op[1] == 'link':
+                _, _, ref, ev, kind, deps = op
+                refobjs[ti][tp] = ref
+                links[ti][tp] = (ev, kind, deps)
+                plain[ti].pop(tp, None)
+                kinds_used.add(kind)
+                trace.append(('on_init-link', ti, tp, kind))
+            else:
+                links[ti].pop(tp, None)
+                refobjs[ti].pop(tp, None)
+                plain[ti][tp] = op[2]
+                trace.append(('on_init-set', ti, tp, op[2]))
+    if shared_pobj:
+        rep.count('targets_sharing_parameter_objects')
     desc = dict(targets=ntg)
     deliveries = []      # (target index, parameter) announced to a watcher that wants every assignment
     for ti_, t_ in enumerate(targets):
